@@ -6,6 +6,7 @@ mod enc;
 mod guard;
 mod irenc;
 mod irgen;
+mod latgen;
 mod pigen;
 mod pcodegen;
 mod penc;
